@@ -189,6 +189,12 @@ macro_rules! impl_select_zero_small {
 
                         past_ones += ones_in_word;
                     }
+                    if first {
+                        // No inventory entry falls in this superblock: it
+                        // begins where the next one does, so that the index
+                        // in inventory_begin is the index of the superblock
+                        inventory_begin.push(inventory.len());
+                    }
                 }
                 assert_eq!(num_ones, past_ones);
 
